@@ -218,9 +218,6 @@ class CIF:
         self._authors: list[Person] = []
         self._reducers: list[str] = []
 
-        # Should be long enough to never run out of IDs.
-        self._id_generator = (str(i) for i in range(1, 1_000_000_000))
-
     @property
     def name(self) -> str:
         return self._block.name
@@ -430,12 +427,14 @@ class CIF:
 
         results = []
         roles = {}
+        # Restart the ids for every call so that saving twice writes the same file.
+        id_generator = (str(i) for i in range(1, 1_000_000_000))
         for authors, category in zip(
             (contact, regular), ('audit_contact_author', 'audit_author'), strict=True
         ):
             if not authors:
                 continue
-            data, rols = _serialize_authors(authors, category, self._id_generator)
+            data, rols = _serialize_authors(authors, category, id_generator)
             results.append(data)
             roles.update(rols)
         if roles:
